@@ -22,6 +22,9 @@ F64_EMAX == 1023
 Rec == ndJsonDeserialize(IOEnv.TRACE)
 OutFile == IOEnv.OUT
 DriftOn == "DRIFT" \in DOMAIN IOEnv /\ IOEnv.DRIFT = "1"
+\* C11 corpus: elementary-function events are only compared across build configurations (determinism
+\* memo and relations); their accuracy contracts are the business of C13-C18
+MemoOnly == "MEMO_ONLY" \in DOMAIN IOEnv /\ IOEnv.MEMO_ONLY = "1"
 
 VARIABLE l
 tvars == <<l, regs, memo>>
@@ -83,7 +86,9 @@ TrCall == /\ l <= Len(Rec) /\ Rec[l].fam # "ctl" /\ l' = l + 1
                  A == ArgsOf(ev)
                  r == ResOf(ev.res)
                  meta == [sp |-> ev.sp, cfg |-> ev.cfg, d |-> ev.d]
-                 fails == CallFails(ev.fam, ev.op, A, r, meta)
+                 fails == IF MemoOnly /\ ev.fam \in {"elem", "pow", "misc"} /\ ev.op # "fma"
+                          THEN MemoFails(ev.op, A, r, meta) \cup RelationFails(ev.op, A, r)
+                          ELSE CallFails(ev.fam, ev.op, A, r, meta)
              IN /\ Note(ev, fails)
                 /\ (IF DriftOn /\ (Drifted(ev.op, A, r) \/ DriftNoOverlap(ev.op, A, r))
                     THEN TLCSet(6, Append(TLCGet(6), [l |-> l, op |-> ev.op, sp |-> ev.sp])) ELSE TRUE)
